@@ -493,10 +493,12 @@ def _i1_ops(thorough):
                 maps.append({k: 'x' for k in ks})
                 if ks:
                     maps.append({k: ('y', i) for i, k in enumerate(ks)})
+                    maps.append({k: (None, 0, '')[i] for i, k in enumerate(ks)})
     else:
         # 4 result shapes (empty, one key, two keys, re-keyed/three keys) x values over 3 index keys
-        maps = [{}, {'k1': 'x'}, {'k2': 'x'}, {'k1': 'x', 'k2': 'x'}, {'k1': 'y'}, {'k2': 'y', 'k3': 'y'},
-                {'k1': 'x', 'k2': 'y', 'k3': 'x'}]
+        # (None is a value like any other: docs/indexing.rst "return {'key': None}" gives {'key': [None, ...]}; so are 0 and '')
+        maps = [{}, {'k1': 'x'}, {'k2': 'x'}, {'k1': 'x', 'k2': 'x'}, {'k1': None}, {'k2': 'y', 'k3': None},
+                {'k1': 'x', 'k2': 0, 'k3': 'x'}]
     ops = []
     for a in objs:
         ops.append(('discard', a, None))
@@ -508,9 +510,9 @@ def _i1_ops(thorough):
                         'kopf._core.engines.indexing.Store._replace', 'kopf._core.engines.indexing.Store._discard'],
          props=['C17'], clauses=['view_replace', 'view_discard', 'wellformed', 'readonly_views', 'store_view'],
          universe='all operation sequences of length <= 4 over 2 objects x 3 index keys x {discard, replace with 7 mappings '
-                  '(empty / one / two / three keys, colliding and re-keyed, two values)} = 69,904 sequences (thorough: all 8 '
-                  'key subsets x 2 value patterns: ~1.3e6); plus all Store sequences of length <= 4 over 3 object keys x '
-                  '{discard, replace with 3 values incl. an equal-but-not-identical one}')
+                  '(empty / one / two / three keys, colliding and re-keyed, values x, y, None, 0)} = 69,904 sequences (thorough: all 8 '
+                  'key subsets x 3 value patterns incl. None/0/empty string); plus all Store sequences of length <= 4 over 3 object keys x '
+                  '{discard, replace with 4 values incl. None and an equal-but-not-identical one}')
 def I1(b):
     """
     BOUNDED stand-in (not a proof) for the view/wf contract of Index and Store.  A deductive encoding
@@ -560,7 +562,7 @@ def I1(b):
         def __eq__(self, o): return o == 1 or isinstance(o, Eq1)
         def __hash__(self): return hash(1)
         def __repr__(self): return '1'
-    sops = [(op, a, v) for a in ('A', 'B', 'C') for op, v in (('discard', None), ('replace', 0), ('replace', 1), ('replace', Eq1()))]
+    sops = [(op, a, v) for a in ('A', 'B', 'C') for op, v in (('discard', None), ('replace', 0), ('replace', 1), ('replace', Eq1()), ('replace', None))]
     for n in range(1, 5):
         for seq in itertools.product(sops, repeat=n):
             store = indexing.Store()
